@@ -912,6 +912,16 @@ func ParseSpecFile(path, pkg string, isGo, trusted bool) (*SpecFile, error) {
 				cur.Asserts[k] = append(cur.Asserts[k], &Clause{Kind: "assume_after", E: e, Text: strings.TrimPrefix(body, "assume_after ")})
 				continue
 			}
+			if strings.HasPrefix(body, "cover ") {
+				// reachability obligation: this call site must be reachable with the condition true
+				e, err := ParseExpr(strings.TrimPrefix(body, "cover "))
+				if err != nil {
+					return nil, fail(i, "%v", err)
+				}
+				k := strings.TrimSpace(parts[0])
+				cur.Asserts[k] = append(cur.Asserts[k], &Clause{Kind: "cover", E: e, Text: strings.TrimPrefix(body, "cover ")})
+				continue
+			}
 			if strings.HasPrefix(body, "assume ") {
 				e, err := ParseExpr(strings.TrimPrefix(body, "assume "))
 				if err != nil {
